@@ -44,6 +44,9 @@ CHECKS = {
  "C12": ("exploration", "differential property-based testing (proptest): one generated input (field operation chains, byte strings, near-miss encodings, Elligator inputs, group programs over all shared operator forms) fed to both feature configurations linked into one process; byte-identical observables required after every step",
          "Generated-input search; the two configurations are compiled from the same tree (default+r1cs and --no-default-features) and compared on verdicts, error variants, encodings, field bytes, identity tests and equality.",
          "Says which backend is wrong only together with C01-C11; internal coordinates are not compared.", "5/C12"),
+ "C16": ("exploration", "differential property-based testing (proptest) against the reference engine ark_bls12_377::Bls12_377: structured scalars -> points, sums, cofactor operations, pairings, multi-pairings (byte-identical serialisations), bilinearity / non-degeneracy laws, and valid + corrupted serialised points exchanged between the engines",
+         "Generated-input search (3k cases quick, ~3 ms each); corruptions include flag bits, bit flips, coordinate = p + small, truncation.",
+         "Trusts ark-bls12-377 0.4 and ark-ec's generic BLS12 engine (shared by both sides).", "5/C16"),
 }
 PENDING = {}
 
